@@ -1929,11 +1929,11 @@ Proof.
     apply remove_end_good; [apply G1|]. apply PI_weaken. apply G1. }
   unfold cbind. destruct (y_ch y0) as [ch|] eqn:Ech.
   - destruct (owned_by c (ch_s ch)).
-    + pose proof (remove_end_good y0 ESender (proj1 G0) ltac:(apply PI_weaken; exact P0)) as R1.
+    + pose proof (remove_end_good y0 ESender (proj1 G0) ltac:(rewrite Ech; apply PI_weaken; exact P0)) as R1.
       destruct (b_remove_end y0 ESender) as [y1| | | |site]; cbn in R1; try contradiction; [|exact Logic.I].
       apply Hsecond. exact R1.
-    + pose proof (Hsecond y0 G0) as H2. rewrite Ech in H2. exact H2.
-  - pose proof (Hsecond y0 G0) as H2. rewrite Ech in H2. exact H2.
+    + exact (Hsecond y0 G0).
+  - exact (Hsecond y0 G0).
 Qed.
 
 (* ---------------------------------------------------------------- every step, every schedule *)
@@ -1994,5 +1994,125 @@ Proof.
   - apply IH. exact G.
   - exact Logic.I.
 Qed.
+
+(* ---------------------------------------------------------------- the initial state *)
+Lemma AI_core0 : AI core0 [].
+Proof.
+  constructor.
+  - intros e. unfold tokens. cbn. rewrite !cnt_empty. cbn. split; [lia|]. destruct e; cbn; (split; [congruence|lia]).
+  - intros s e hid H. cbn in H. rewrite lookup_empty in H. discriminate.
+  - intros s1 s2 e1 e2 hid H. cbn in H. rewrite lookup_empty in H. discriminate.
+  - intros e cap hid H. inversion H.
+  - constructor.
+  - intros q1 v q2 H. destruct q1; discriminate.
+  - intros q1 n q2 H. destruct q1; discriminate.
+Qed.
+
+Lemma LI_cl0 : LI cl0 core0.
+Proof.
+  constructor; cbn.
+  - reflexivity.
+  - exact AI_core0.
+  - intros hid [h H]. cbn in H. rewrite lookup_empty in H. discriminate.
+  - intros s e b H. rewrite lookup_empty in H. discriminate.
+  - intros s e H. inversion H.
+  - intros s e hid H. rewrite lookup_empty in H. discriminate.
+  - intros s ec H. inversion H.
+  - intros m H. inversion H.
+  - constructor.
+  - intros s H. inversion H.
+  - intros s [v H]. rewrite lookup_empty in H. discriminate.
+  - intros s [v H]. rewrite lookup_empty in H. discriminate.
+Qed.
+
+Definition hs0 (mine : chan_end) : gmap N handle :=
+  {[ 0 := {| h_end := mine; h_kind := HClaimed false |}; 1 := {| h_end := other_end mine; h_kind := HUnclaimed |} ]}.
+
+Lemma cnt_hs0 mine e : cnt (tok_handle e) (hs0 mine) = if bool_decide (mine = e) then 1%nat else 0%nat.
+Proof.
+  unfold hs0. rewrite <- insert_union_singleton_l.
+  rewrite cnt_insert_fresh by (rewrite lookup_singleton_ne by discriminate; reflexivity).
+  rewrite <- insert_empty, cnt_insert_fresh by apply lookup_empty. rewrite cnt_empty.
+  unfold tok_handle. cbn. rewrite andb_false_r, andb_true_r. destruct (bool_decide (mine = e)); reflexivity.
+Qed.
+
+Definition core_created (mine : chan_end) : ccore := set_ent core0 mine (Some EPending) <| k_handles := hs0 mine |>.
+
+Lemma tokens_created mine e : tokens (core_created mine) [] e = if bool_decide (mine = e) then 1%nat else 0%nat.
+Proof.
+  unfold tokens. assert (k_handles (core_created mine) = hs0 mine) as -> by (destruct mine; reflexivity).
+  assert (k_pclose (core_created mine) = ∅) as -> by (destruct mine; reflexivity).
+  rewrite cnt_hs0, cnt_empty. cbn. lia.
+Qed.
+
+Lemma ent_created mine e : ent (core_created mine) e = if bool_decide (mine = e) then Some EPending else None.
+Proof. destruct mine, e; reflexivity. Qed.
+
+Lemma AI_created mine : AI (core_created mine) [].
+Proof.
+  constructor.
+  - intros e. rewrite tokens_created, ent_created. destruct (bool_decide (mine = e)); (split; [lia|]); split; (congruence || lia).
+  - intros s e hid H. assert (k_pclaim (core_created mine) = ∅) as Hp by (destruct mine; reflexivity).
+    rewrite Hp, lookup_empty in H. discriminate.
+  - intros s1 s2 e1 e2 hid H. assert (k_pclaim (core_created mine) = ∅) as Hp by (destruct mine; reflexivity).
+    rewrite Hp, lookup_empty in H. discriminate.
+  - intros e cap hid H. inversion H.
+  - constructor.
+  - intros q1 v q2 H. destruct q1; discriminate.
+  - intros q1 n q2 H. destruct q1; discriminate.
+Qed.
+
+Lemma LI_created mine :
+  LI (cl0 <| c_core := core_created mine |> <| c_nexth := 2 |>) (core_created mine).
+Proof.
+  assert (Hpc : k_pclose (core_created mine) = ∅) by (destruct mine; reflexivity).
+  assert (Hpk : k_pclaim (core_created mine) = ∅) by (destruct mine; reflexivity).
+  assert (Hh : k_handles (core_created mine) = hs0 mine) by (destruct mine; reflexivity).
+  constructor; cbn; rewrite ?Hpc, ?Hpk.
+  - reflexivity.
+  - apply AI_created.
+  - intros hid [h H]. cbn in H. rewrite Hh in H. unfold hs0 in H.
+    rewrite <- insert_union_singleton_l in H. apply lookup_insert_Some in H. destruct H as [[<- _]|[_ H]]; [lia|].
+    apply lookup_singleton_Some in H. destruct H as [<- _]. lia.
+  - intros s e b H. rewrite lookup_empty in H. discriminate.
+  - intros s e H. inversion H.
+  - intros s e hid H. rewrite lookup_empty in H. discriminate.
+  - intros s ec H. inversion H.
+  - intros m H. inversion H.
+  - constructor.
+  - intros s H. inversion H.
+  - intros s [v H]. rewrite lookup_empty in H. discriminate.
+  - intros s [v H]. rewrite lookup_empty in H. discriminate.
+Qed.
+
+Lemma created_CI c0 ec others : CI (created k c0 ec others).
+Proof.
+  split; [reflexivity|]. set (mine := end_of_cap ec).
+  set (ch := match ec with
+             | CSender => {| ch_s := Claimed c0 0; ch_r := Unclaimed |}
+             | CReceiver cap => {| ch_s := Unclaimed; ch_r := Claimed c0 cap |}
+             end).
+  assert (Hmine : exists cap, end_st ch mine = Claimed c0 cap) by (destruct ec; cbn; eauto).
+  assert (Hother : end_st ch (other_end mine) = Unclaimed) by (destruct ec; reflexivity).
+  intros c' x' Hx'. cbn in Hx'. fold mine in Hx'. destruct (decide (c' = c0)) as [->|Hne].
+  - rewrite lookup_insert in Hx'. inversion Hx'; subst x'; clear Hx'.
+    exists (core_created mine). split; [apply LI_created|]. cbn. fold ch.
+    intros e _. rewrite tokens_created, ent_created. destruct (end_cases mine e) as [-> | ->].
+    + destruct Hmine as [cap Hm]. rewrite Hm, bool_decide_eq_true_2 by reflexivity. split; [|discriminate].
+      intros cap' _. rewrite Hother. split; reflexivity.
+    + rewrite Hother. rewrite bool_decide_eq_false_2 by (intros H; symmetry in H; apply other_end_ne in H; exact H).
+      split; [intros cap Hc; discriminate|reflexivity].
+  - rewrite lookup_insert_ne in Hx' by congruence.
+    apply elem_of_list_to_map_2 in Hx'. apply elem_of_list_fmap in Hx'. destruct Hx' as (c'' & Hp & _). inversion Hp; subst.
+    exists core0. split; [apply LI_cl0|]. cbn. fold ch. intros e _. split.
+    + intros cap Hc. exfalso. destruct (end_cases mine e) as [-> | ->].
+      * destruct Hmine as [cap' Hm]. rewrite Hm in Hc. inversion Hc. congruence.
+      * rewrite Hother in Hc. discriminate.
+    + intros _. unfold tokens. cbn. rewrite !cnt_empty. reflexivity.
+Qed.
+
+(* ---------------------------------------------------------------- the theorem *)
+Theorem channel_ends_safe c0 ec others sched : fine (run fl (created k c0 ec others) sched).
+Proof. apply ci_run. apply created_CI. Qed.
 
 End ChanEnds.
